@@ -32,6 +32,21 @@ def main():
             "level_note": "; ".join(p.assumptions),
             "technique": getattr(p, "technique", "runtime monitoring: differential history testing against an executable model + Miri / AddressSanitizer / LeakSanitizer"),
         })
+    import e23
+    for pid in ALL:
+        if pid in ("C05", "C15", "C16", "C18"):
+            checks.append({
+                "property_id": pid,
+                "quick_cmd": f"./check run {pid} --tier quick",
+                "thorough_cmd": f"./check run {pid} --tier thorough",
+                "evidence_file": f"/verif/evidence/{pid}.json",
+                "replay_cmd_template": "./check replay {path}",
+                "engine": "E3+E2",
+                "level_claimed": {"category": "exploration", "text": "Runtime monitoring of the macro code itself: the generator code of /repo/macros is executed in-process on ~10^4-10^5 generated declarations/queries per run (E3) and for real inside rustc on generated client programs whose output / compile verdict is compared with an independent reference (E2). Sampled programs, not a proof over all programs.", "design_ref": f"DESIGN.md section 4, {pid}"},
+                "level_note": "reference written from the documentation (mlib/src/gen.rs); rustc verdicts trusted; programs sampled by a seeded generator; corpus finite",
+                "technique": "runtime monitoring of macro expansion: in-process execution of the generator code + compile-and-run of generated client programs against a reference; rustc verdicts on a corpus of unsound programs with sound twins",
+            })
+    checks.sort(key=lambda c: c["property_id"])
     claimed = {c["property_id"] for c in checks}
     na = [{"property_id": pid, "reason": NA_REASON.get(pid, "check not built yet in this framework revision (planned, see DESIGN.md section 4)")} for pid in ALL if pid not in claimed]
     m = {
@@ -45,8 +60,12 @@ def main():
             "add_only": True,
         },
         "engines": [
-            {"name": "E1", "path": "/verif/harness", "serves_properties": sorted(pid for pid in claimed if getattr(e1.PROPS[pid], "engine", "E1") == "E1"),
+            {"name": "E1", "path": "/verif/harness", "serves_properties": sorted(pid for pid in claimed if pid in e1.PROPS),
              "kind_free_text": "Rust history/differential harness (model, drop registry, invariant walker, fault injector) run natively (debug/release), under Miri, AddressSanitizer+LeakSanitizer and valgrind memcheck"},
+            {"name": "E3", "path": "/verif/mlib", "serves_properties": ["C05", "C15", "C16", "C18"],
+             "kind_free_text": "the gecs_macros sources (#[path]-included from /repo) driven as a library on generated declarations/queries; token walker + reference"},
+            {"name": "E2", "path": "/verif/lib/e23.py", "serves_properties": ["C05", "C15", "C16", "C18"],
+             "kind_free_text": "generated client programs compiled by rustc against the freshly built gecs and run; reject-class programs and an unsound-program corpus compiled for the verdict"},
         ],
         "checks": checks,
         "not_applicable": na,
